@@ -109,8 +109,6 @@ func c19Ctors(c *Ctx) []string {
 }
 
 var c19Retain = []retainSpec{
-	{ctor: "itertools.MultisetCombinations", param: "m", typ: "itertools.MultisetCombinationIterator", field: "m"},
-	{ctor: "dawg.NewPatternSearcher", param: "pattern", typ: "dawg.PatternSearcher", field: "pattern"},
 	{ctor: "graph.InducedSubgraph", param: "g", typ: "graph.inducedSubgraph", field: "g"},
 	{ctor: "graph.Complement", param: "g", typ: "graph.complement", field: "g"},
 }
